@@ -97,6 +97,10 @@ def with_next(segs):
 # ---------------------------------------------------------------- mutations
 CTLS = [bytes([c]) for c in (0, 1, 8, 9, 10, 11, 12, 13, 27, 31, 127)]
 NONASCII = ["٥".encode(), "５".encode(), "K".encode(), b"\xff", b"\xc2\x85"]
+# characters for which Python's str methods are more liberal than the ASCII grammar: str.strip()/isspace() accept
+# them as white space (NBSP, NEL, EM SPACE, LINE SEPARATOR, IDEOGRAPHIC SPACE), int()/isdigit() as digits
+UNISPACE = [b"\xc2\xa0", b"\xc2\x85", b"\xe2\x80\x83", b"\xe2\x80\xa8", b"\xe3\x80\x80"]
+UNIDIGIT = [b"\xd9\xa5", b"\xef\xbc\x95", b"\xdf\x85", b"\xc2\xb2"]
 
 
 def _insertions(data: bytes, pieces):
@@ -133,22 +137,29 @@ def _variants(tag: str, data: bytes):
     elif tag in ("hv", "hostv", "tv"):
         yield from _insertions(data, CTLS)
         yield from (b"", data + b" ", b" " + data, data + b"\t\t")
+        yield from _insertions(data, UNISPACE[:2])
     elif tag == "clv":
         n = data
         yield from (b"+" + n, b"-" + n, n + b" " + n, n + b"," + n, n + b", " + n, b"0x" + n, n + b".0", b"",
                     n + b"e0", b"0" + n, b"00" + n, n + b"\t", b"\t" + n, n + b"\x00", n + b"\x0b", n + b";",
                     NONASCII[0], NONASCII[1], b"1" + NONASCII[0], n + b"_", b"\xd9\xa0" + n,
                     b"9" * 25, b"1" + n, b"0", n[:-1] if len(n) > 1 else b"6")
+        yield from _insertions(n, UNISPACE + UNIDIGIT)
     elif tag == "tev":
         yield from (b"chunked, chunked", b"chunked,chunked", b"gzip", b"identity", b"chunked, gzip", b"chunked, identity",
                     b"xchunked", b"chunkedx", b"CHUNKED", b"chun\xe2\x84\xaaed", b"chunked\x00", b"chunk ed", b'"chunked"',
                     b",chunked", b"chunked,", b"gzip, chunked", b"identity, chunked", b"chunked;q=1", b"", b"chunked ,chunked",
                     b"chunked\t", b"chunked\x0b", b"gzip,chunked , chunked", b"chunked-", b"\xef\xbd\x83hunked", b"chunked\r")
+        yield from _insertions(b"chunked", UNISPACE)
+        for u in UNISPACE:
+            yield b"gzip," + u + b"chunked"
+            yield b"gzip, chunked" + u
     elif tag in ("csize", "csize0"):
         n = data
         yield from (b"+" + n, b"-" + n, b"0x" + n, b" " + n, n + b" ", n + b"\t", b"", n + b"g", b"000" + n, NONASCII[1],
                     b"0" * 20 + n, n + b"\x00", n + b"\r", n + b"_", b"\t" + n, n + b".", b"1" + n, b"f" * 17,
                     n + b"\x0b", b"0", b"1")
+        yield from _insertions(n, UNISPACE + UNIDIGIT)
     elif tag == "cext":
         yield from (b";a", b";a=b", b';a="q q"', b';a="x\ny"', b";\x00", b";a\rb", b";a\nb", b";", b" ;a", b";a=b;c=d",
                     b";a=\xff", b";\x7f", b'; a="\\""', b";a\r", b"\t;a", b";;", b";a= b")
@@ -249,13 +260,13 @@ def token_strings(alphabet, depth):
 
 SUBLANG = {
     # name: (alphabet, envelope(prefix, suffix))
-    "cl-value": ([b"5", b"0", b"+", b"-", b" ", b"\t", b",", b"x", b"\xd9\xa5", b".", b"\x0b"],
+    "cl-value": ([b"5", b"0", b"+", b"-", b" ", b"\t", b",", b"x", b"\xd9\xa5", b".", b"\x0b", b"\xc2\xa0"],
                  (b"POST / HTTP/1.1\r\nHost: a\r\nContent-Length:", b"\r\n\r\nhello" + NEXT)),
-    "te-value": ([b"chunked", b"gzip", b",", b" ", b"\t", b";", b"C", b"x", b"\xe2\x84\xaa", b"identity", b"\x0b"],
+    "te-value": ([b"chunked", b"gzip", b",", b" ", b"\t", b";", b"C", b"x", b"\xe2\x84\xaa", b"identity", b"\x0b", b"\xc2\xa0"],
                  (b"POST / HTTP/1.1\r\nHost: a\r\nTransfer-Encoding:", b"\r\n\r\n5\r\nhello\r\n0\r\n\r\n" + NEXT)),
     "field-line": ([b"X", b"-", b":", b" ", b"\t", b"v", b"\r\n", b"\n", b"\r", b"\x00", b"Content-Length", b"5"],
                    (b"POST / HTTP/1.1\r\nHost: a\r\n", b"\r\n\r\n" + NEXT)),
-    "chunk-body": ([b"5", b"0", b"\r\n", b"\n", b"hello", b";", b"a", b" ", b"\r", b"X:y", b"+"],
+    "chunk-body": ([b"5", b"0", b"\r\n", b"\n", b"hello", b";", b"a", b" ", b"\r", b"X:y", b"+", b"\xe2\x80\x83"],
                    (b"POST / HTTP/1.1\r\nHost: a\r\nTransfer-Encoding: chunked\r\n\r\n", b"\r\n\r\n" + NEXT)),
     "request-line": ([b"GET", b" ", b"/", b"HTTP/1.1", b"\t", b"*", b"\r", b"HTTP/1.0", b"a", b":", b"\x00"],
                      (b"", b"\r\nHost: a\r\n\r\n" + NEXT)),
